@@ -176,6 +176,8 @@ let () =
     | [] -> ()
     | "case" :: _ -> m := None; output_string oc (l ^ "\n")
     | ["end"] -> output_string oc "end\n"
+    | "xframe" :: _ -> ()   (* harness-only observation (x line), not part of the tie *)
+    | "errtext" :: _ -> ()
     | "dump" :: _ -> (match !m with Some mm -> dump oc mm.Machine.st | None -> output_string oc "r nomachine\n")
     | "step" :: _ when spec_mode ->
       (match !m with
